@@ -467,6 +467,8 @@ def main():
                        'matplotlib is a recorder (savefig paths are audited)', 'pool tasks run in-process; a worker exception is re-raised where the real pool re-raises it']
     rep.bounds = {'fault_index': 'symbolic over all mutating operations of the run', 'inputs': 'one 3D 2-level, one 3D 1-field, one 2D plotfile, one checkpoint'}
     common.run_cases(rep, run_case, cases())
+    from harness import conformance
+    conformance.run_into(rep)
     return rep.finish()
 
 
